@@ -105,6 +105,9 @@ func randSchedule(rng *rand.Rand) ([]NumPeriod, int64) {
 		if rng.Intn(3) == 0 {
 			lenMs = int64(1000*(1+rng.Intn(400))) * 86400 // up to ~1 year
 		}
+		if kind != "EXP" && rng.Intn(3) == 0 {
+			lenMs += int64(1 + rng.Intn(999)) // period boundaries off the whole second (start and end with different sub-second parts)
+		}
 		if kind != "EXP" && rng.Intn(8) == 0 {
 			lenMs = int64(300+rng.Intn(300)) * 365 * 86400 * 1000 // three to six centuries: longer than a time.Duration can hold
 		}
@@ -225,6 +228,26 @@ func RunNumeric(n int, seed int64) (*NumMinterResult, error) {
 			times = []int64{horizon}
 		}
 		sort.Slice(times, func(a, b int) bool { return times[a] < times[b] })
+		if rng.Intn(3) == 0 {
+			// every third schedule is stopped inside one of its linear periods, so that the sample (total, inflation) is taken there
+			var lins []NumPeriod
+			for _, p := range ps {
+				if p.Kind == "LIN" && p.EndMs > p.StartMs+1 {
+					lins = append(lins, p)
+				}
+			}
+			if len(lins) > 0 {
+				p := lins[rng.Intn(len(lins))]
+				cut := p.StartMs + 1 + rng.Int63n(p.EndMs-p.StartMs-1)
+				var kept []int64
+				for _, t := range times {
+					if t < cut {
+						kept = append(kept, t)
+					}
+				}
+				times = append(kept, cut)
+			}
+		}
 		T := times[len(times)-1]
 		desc := map[string]any{"periods": ps, "start_ms": startMs, "times_ms": times}
 		run := func(ts []int64) (sdk.Context, *big.Int, string) {
